@@ -128,7 +128,7 @@ impl<'a> Gen<'a> {
 
     fn const_of(&mut self, k: Kind) -> String {
         match k {
-            Kind::Num => format!("{}", self.r.below(self.n_num.max(1) + 1)),
+            Kind::Num => format!("{}", crate::ds::numv(self.r.below(self.n_num.max(1) + 1))),
             Kind::Pred => pred(self.r.below(self.n_pred)),
             Kind::Graph => {
                 if self.graphs.is_empty() || self.r.chance(1, 6) {
@@ -140,7 +140,7 @@ impl<'a> Gen<'a> {
             Kind::Str => "w0".to_string(),
             Kind::Ent | Kind::Any => {
                 if k == Kind::Any && self.r.chance(1, 3) {
-                    format!("{}", self.r.below(self.n_num.max(1)))
+                    format!("{}", crate::ds::numv(self.r.below(self.n_num.max(1))))
                 } else {
                     ent(self.r.below(self.n_ent + 1)) // +1: sometimes an entity that is not in the data
                 }
@@ -237,7 +237,7 @@ impl<'a> Gen<'a> {
 
     fn gen_arith(&mut self, depth: usize, nums: &[String]) -> Arith {
         if depth == 0 || self.r.chance(1, 4) {
-            return if self.r.chance(2, 3) { Arith::Var(self.r.pick(nums).clone()) } else { Arith::Num(self.r.below(self.n_num + 2) as i64) };
+            return if self.r.chance(2, 3) { Arith::Var(self.r.pick(nums).clone()) } else { Arith::Num(crate::ds::numv(self.r.below(self.n_num + 2)) as i64) };
         }
         let l = Box::new(self.gen_arith(depth - 1, nums));
         let r = Box::new(self.gen_arith(depth - 1, nums));
@@ -274,10 +274,10 @@ impl<'a> Gen<'a> {
                     1 => Arith::Mul(Box::new(Arith::Var(nv.clone())), Box::new(Arith::Num(k))),
                     _ => Arith::Sub(Box::new(Arith::Var(nv.clone())), Box::new(Arith::Num(k))),
                 };
-                let rhs = if nums.len() > 1 && self.r.coin() { Arith::Var(self.r.pick(&nums).clone()) } else { Arith::Num(self.r.below(self.n_num + 2) as i64) };
+                let rhs = if nums.len() > 1 && self.r.coin() { Arith::Var(self.r.pick(&nums).clone()) } else { Arith::Num(crate::ds::numv(self.r.below(self.n_num + 2)) as i64) };
                 return Some(Expr::ArithCmp(lhs, op, rhs));
             }
-            return Some(Expr::Cmp(nv, op, T::Const(format!("{}", self.r.below(self.n_num + 1)))));
+            return Some(Expr::Cmp(nv, op, T::Const(format!("{}", crate::ds::numv(self.r.below(self.n_num + 1))))));
         }
         if choice < 8 {
             let op = if self.r.chance(2, 3) { "=" } else { "!=" };
@@ -292,7 +292,7 @@ impl<'a> Gen<'a> {
         // ordering comparison on an arbitrary variable (edge unless numeric)
         if self.allow_edge || info.kind == Kind::Num {
             let op = *self.r.pick(&["<", ">", "<=", ">="]);
-            return Some(Expr::Cmp(v, op, T::Const(format!("{}", self.r.below(self.n_num + 1)))));
+            return Some(Expr::Cmp(v, op, T::Const(format!("{}", crate::ds::numv(self.r.below(self.n_num + 1))))));
         }
         Some(Expr::Cmp(v, "=", T::Const(self.const_of(info.kind))))
     }
